@@ -8,14 +8,30 @@ package didtransformer
 //@   requires t != nil && doctransformer.wfModel(rm) && doctransformer.wfInfo(info)
 //@   requires info != nil && has(info, "id") ==> typeis(info["id"], string)
 //@   ensures [atomic] (err != nil ==> ret == nil) && (err == nil ==> ret != nil)
+// ownership (C20): the only pre-existing memory a transformation writes is its own input -- the
+// operation lists of rm are ordered in place by the metadata step; the transformer itself is read-only
+//@   modifies elems(rm.PublishedOperations)
+//@   modifies elems(rm.UnpublishedOperations)
 
-// helpers of TransformDocument are verified in place (inlined); the loop clauses state what stays
-// true while the per-key / per-service work runs
+// the context list stored in a document under "@context", when it is a list of values
+//@ spec func ctxSlice(m map[string]interface{}) []interface{} =
+//@   ite(typeis(m["@context"], []interface{}), m["@context"].([]interface{}), zeroOf(0, []interface{}))
+
+// the helpers fill in the result document they are handed (and may extend its context list in
+// place); the loop clauses state what stays true while the per-key / per-service work runs
 //@ func (t *Transformer) processKeys(internal, resolutionResult) (err)
+//@   requires t != nil && resolutionResult != nil && resolutionResult.Document != nil
+//@   modifies mapcontent(resolutionResult.Document)
+//@   modifies elems(ctxSlice(resolutionResult.Document))
 //@   loop 0 invariant resolutionResult != nil && resolutionResult.Document != nil
 //@   loop 1 invariant resolutionResult != nil && resolutionResult.Document != nil
 //@   loop 2 invariant resolutionResult != nil && resolutionResult.Document != nil
+// the per-purpose lists are built by this call: appending to them never writes memory that existed before
+//@   loop 0 invariant [purposes.fresh] purposes != nil && (forall k string :: has(purposes, k) ==> purposes[k] == nil || fresh(purposes[k]))
+//@   loop 1 invariant [purposes.fresh] purposes != nil && (forall k string :: has(purposes, k) ==> purposes[k] == nil || fresh(purposes[k]))
 
 //@ func (t *Transformer) processServices(internal, resolutionResult)
+//@   requires t != nil && resolutionResult != nil && resolutionResult.Document != nil
+//@   modifies mapcontent(resolutionResult.Document)
 //@   loop 0 invariant resolutionResult != nil && resolutionResult.Document != nil
 //@   loop 1 invariant resolutionResult != nil && resolutionResult.Document != nil
